@@ -132,7 +132,8 @@ class StdoutBinaryProxy(io.BufferedIOBase):
 
 # Environment of the current run (set by harness.run_sim): which compressed formats are written
 # through an external program, and the open() call that fails with EMFILE
-ENV = {"piped_exts": (), "emfile_at": None, "enospc": None}
+ENV = {"piped_exts": (), "emfile_at": None, "enospc": None, "emfile_pending": None, "short_reads": None}
+RESOURCE = None  # the fake `resource` module of cutadapt.files (set by harness.install)
 _WOPENS = [0]
 _OPENS = [0]
 FIRED = {}
@@ -142,6 +143,8 @@ def begin_run(env):
     ENV["piped_exts"] = tuple(env.get("piped_exts") or ())
     ENV["emfile_at"] = env.get("emfile_at")
     ENV["enospc"] = env.get("enospc")
+    ENV["emfile_pending"] = None
+    ENV["short_reads"] = env.get("short_reads")
     _OPENS[0] = 0
     _WOPENS[0] = 0
     FIRED.clear()
@@ -194,6 +197,51 @@ class PipedWriter(io.BufferedIOBase):
                 k.probe("compressor_pipe_inherited_at_close")
                 k.yield_(lambda: all(t.state is K.DONE for t in self.holders), "wait-compressor", to_sim(self._path))
         self._f.close()
+
+
+class ShortReader(io.BufferedIOBase):
+    """
+    Input that arrives through a pipe from a producer that is slower than cutadapt: a read
+    returns what is there - at most `k` bytes - not what was asked for. (The data are all in
+    the pipe already, so the amounts are the simulator's choice and repeatable.)
+    """
+
+    def __init__(self, f, k):
+        super().__init__()
+        self._f = f
+        self._k = max(64, int(k))  # (dnaio asserts that its first read of 4 bytes is complete)
+        self.name = getattr(f, "name", None)
+
+    def readable(self):
+        return True
+
+    def seekable(self):
+        return False
+
+    def readinto(self, b):
+        view = memoryview(b)
+        return self._f.readinto(view[: min(len(view), self._k)]) or 0
+
+    def read(self, size=-1):
+        if size is None or size < 0:
+            return self._f.read()
+        return self._f.read(min(size, self._k))
+
+    def read1(self, size=-1):
+        return self.read(self._k if size is None or size < 0 else size)
+
+    def readline(self, size=-1):
+        return self._f.readline(size)
+
+    def peek(self, n=0):
+        return self._f.peek(n)
+
+    def close(self):
+        if not self.closed:
+            try:
+                self._f.close()
+            finally:
+                super().close()
 
 
 class FullDiskWriter(io.BufferedIOBase):
@@ -258,16 +306,31 @@ class FullDiskWriter(io.BufferedIOBase):
 
 def sim_xopen(filename, mode="r", compresslevel=None, threads=None, **kwargs):
     """Replacement for the name `xopen` inside cutadapt.files."""
-    _OPENS[0] += 1
-    if ENV["emfile_at"] is not None and _OPENS[0] == ENV["emfile_at"]:
-        import errno
+    import errno
 
+    if ENV.get("emfile_pending") is not None:
+        # the process sits at its descriptor limit: opening works again once the limit has been raised
+        if RESOURCE is not None and RESOURCE.raised == ENV["emfile_pending"]:
+            FIRED["emfile_again_limit_not_raised"] = FIRED.get("emfile_again_limit_not_raised", 0) + 1
+            raise OSError(errno.EMFILE, "Too many open files", filename if isinstance(filename, str) else None)
+        ENV["emfile_pending"] = None
+        retry = True  # (the limit has just been raised: this open succeeds)
+    else:
+        retry = False
+    _OPENS[0] += 0 if retry else 1
+    at = ENV["emfile_at"]
+    if not retry and at is not None and _OPENS[0] in (at if isinstance(at, (list, tuple)) else (at,)):
         FIRED["emfile"] = FIRED.get("emfile", 0) + 1
+        ENV["emfile_pending"] = RESOURCE.raised if RESOURCE is not None else None
         raise OSError(errno.EMFILE, "Too many open files", filename if isinstance(filename, str) else None)
     if filename == "-":
         if "r" in mode:
             # what xopen does: a binary stream on sys.stdin's descriptor, compression detected by content
-            return _xopen_mod.xopen("-", mode, threads=0, **kwargs)
+            f = _xopen_mod.xopen("-", mode, threads=0, **kwargs)
+            if ENV["short_reads"] and mode == "rb":
+                FIRED["short_reads"] = FIRED.get("short_reads", 0) + 1
+                return ShortReader(f, ENV["short_reads"])
+            return f
         proxy = StdoutBinaryProxy(_STDOUT_BUF)
         return io.TextIOWrapper(proxy, encoding="utf-8") if ("t" in mode or mode == "w") else proxy
     if isinstance(filename, str) and filename.startswith("/dev/fd/"):
@@ -281,6 +344,9 @@ def sim_xopen(filename, mode="r", compresslevel=None, threads=None, **kwargs):
             FIRED["devfd_missing_in_spawned_child"] = FIRED.get("devfd_missing_in_spawned_child", 0) + 1
             raise FileNotFoundError(errno.ENOENT, "No such file or directory", filename)
     f = _xopen_mod.xopen(filename, mode, compresslevel=compresslevel, threads=0, **kwargs)
+    if mode == "rb" and ENV["short_reads"] and isinstance(filename, str) and filename.startswith("/dev/fd/"):
+        FIRED["short_reads"] = FIRED.get("short_reads", 0) + 1
+        return ShortReader(f, ENV["short_reads"])
     if mode == "wb" and ENV["enospc"] and isinstance(filename, str):
         _WOPENS[0] += 1
         if _WOPENS[0] == ENV["enospc"]["nth"]:
